@@ -525,7 +525,8 @@ def derives_from(p: Path, t: ast.AST, needle: str) -> bool:
         for e_ in evs:
             if e_.kind == "call" and isinstance(e_.term.func, ast.Attribute) and e_.term.func.attr in ("append", "add", "extend", "update", "insert", "setdefault"):
                 recv = e_.term.func.value
-                if show(recv) == nm or nm in {x.id for x in ast.walk(expand1(recv, evs)) if isinstance(x, ast.Name)}:
+                if show(recv) == nm or nm in {x.id for x in ast.walk(expand1(recv, evs)) if isinstance(x, ast.Name)} \
+                        or nm in {x.id for x in ast.walk(recv) if isinstance(x, ast.Name)}:
                     for a_ in e_.term.args:
                         if needle in xshow(a_, evs):
                             return True
